@@ -73,13 +73,28 @@ def main(inp, outp):
                        np.linalg.norm(o[:3] - ref) <= 1e-6 and np.linalg.norm(up / 1000.0 - nrm) <= 1e-9, "topo/coordinate-type",
                        f"create_station(..., {how} {tuple(int(x) for x in (lat_d, lon_d, alt))}): origin {np.linalg.norm(o[:3] - ref):.4g} m from the geodetic position, "
                        f"zenith off by {np.linalg.norm(up / 1000.0 - nrm):.3g}", {"latlonalt": [lat_d, lon_d, alt], "given_as": how})
+    if job.get("axes"):
+        # the ellipsoid is WGS-84 (the property's own words): a = 6378137.0 m, 1/f = 298.257223563
+        from beyond.constants import Earth as _E
+        f_lib = _E.f if hasattr(_E, "f") else _E.flattening
+        clause("the flattening of the Earth ellipsoid is the WGS-84 one (1/298.257223563)", abs(f_lib - 1 / 298.257223563) <= 1e-15, "topo/wgs84-flattening",
+               f"Earth flattening is {f_lib!r}", {"f": f_lib})
+        res["evaluations"] += 1
+        if _E.r != 6378137.0:
+            clause("the equatorial radius of the Earth ellipsoid is the WGS-84 one (6378137.0 m)", False,
+                   "topo/wgs84-radius-egm96" if _E.r == 6378136.3 else "topo/wgs84-radius",
+                   f"Earth.r is {_E.r!r} m instead of 6378137.0 m: stations sit {6378137.0 - _E.r:.2f} m below the WGS-84 ellipsoid at the equator", {"r": _E.r})
+        else:
+            clause("the equatorial radius of the Earth ellipsoid is the WGS-84 one (6378137.0 m)", True, "", "", {})
     for vi, v in enumerate(job.get("axes", [])):
         lat = math.atan2(v["lat"][1], v["lat"][0])
         lon = math.atan2(v["lon"][1], v["lon"][0])
         alt = [0.0, 172.0, -350.0, 8800.0][vi % 4]
         key = (tuple(v["lat"]), tuple(v["lon"]), alt)
         if key not in stations:
-            stations[key] = create_station(f"VfT{len(stations)}", (math.degrees(lat), math.degrees(lon), alt))
+            # western longitudes are given in the [0, 360) convention for every other station (Mauna Kea: -155.5 or 204.5)
+            lon_given = math.degrees(lon) + (360.0 if lon < 0 and len(stations) % 2 == 1 else 0.0)
+            stations[key] = create_station(f"VfT{len(stations)}", (math.degrees(lat), lon_given, alt))
         sta = stations[key]
         ax = {k: np.array([float(crt_rational([m[k][i] for m in v["axes"]], primes)) for i in range(3)]) for k in ("north", "west", "up")}
         offp = np.array([float(crt_rational([m[0][i] for m in v["off"]], primes)) for i in range(3)]) * LS
